@@ -23,7 +23,28 @@ func (vm *VM) bigGet(v Value, what string) *smt.Term {
 	if !ok {
 		vmErr("%s: cell does not hold a big.Int: %s", what, describe(*p))
 	}
+	if b.T == nil && b.Lazy != nil {
+		n, d := vm.ratNormalize(RatVal{b.Lazy.N, b.Lazy.D})
+		if b.Lazy.Num {
+			b.T = n
+		} else {
+			b.T = d
+		}
+		*p = BigVal{T: b.T}
+	}
 	return b.T
+}
+
+// lazyPart returns the not-yet-normalised numerator/denominator information of a cell, if any.
+func lazyPart(v Value) *normPart {
+	p, ok := v.(*Value)
+	if !ok || p == nil {
+		return nil
+	}
+	if b, ok := (*p).(BigVal); ok && b.T == nil {
+		return b.Lazy
+	}
+	return nil
 }
 
 func (vm *VM) ratGet(v Value, what string) RatVal {
@@ -35,7 +56,7 @@ func (vm *VM) ratGet(v Value, what string) RatVal {
 	return r
 }
 
-func (vm *VM) newBig(t *smt.Term) *Value { return vm.newCell(BigVal{t}) }
+func (vm *VM) newBig(t *smt.Term) *Value { return vm.newCell(BigVal{T: t}) }
 
 // divisorsDesc lists the positive divisors of d, largest first (d small).
 func divisorsDesc(d *big.Int) []*big.Int {
@@ -154,7 +175,7 @@ func registerBig(vm *VM) {
 			z := vm.bigPtr(a[0], name)
 			x := vm.bigGet(a[1], name)
 			y := vm.bigGet(a[2], name)
-			vm.store(z, BigVal{f(x, y)})
+			vm.store(z, BigVal{T: f(x, y)})
 			return z
 		}
 	}
@@ -164,21 +185,26 @@ func registerBig(vm *VM) {
 		z := vm.bigPtr(a[0], "Mul")
 		x := vm.bigGet(a[1], "Mul")
 		y := vm.bigGet(a[2], "Mul")
-		vm.store(z, BigVal{vm.mulTerms(x, y, "Int.Mul")})
+		vm.store(z, BigVal{T: vm.mulTerms(x, y, "Int.Mul")})
 		return z
 	}
 	divmod := func(name string, mod bool) {
 		I["(*math/big.Int)."+name] = func(vm *VM, _ *frame, a []Value) Value {
 			z := vm.bigPtr(a[0], name)
+			// floor(Num/Denom) of one rational does not depend on the common factor
+			if lx, ly := lazyPart(a[1]), lazyPart(a[2]); !mod && lx != nil && ly != nil && lx.Num && !ly.Num && lx.N == ly.N && lx.D == ly.D {
+				vm.store(z, BigVal{T: smt.Div(lx.N, lx.D)})
+				return z
+			}
 			x := vm.bigGet(a[1], name)
 			y := vm.bigGet(a[2], name)
 			if vm.Truth(fromBoolTerm(smt.Eq(y, smt.Int64(0)))) {
 				vm.goPanic("division by zero")
 			}
 			if mod {
-				vm.store(z, BigVal{smt.Mod(x, y)})
+				vm.store(z, BigVal{T: smt.Mod(x, y)})
 			} else {
-				vm.store(z, BigVal{smt.Div(x, y)})
+				vm.store(z, BigVal{T: smt.Div(x, y)})
 			}
 			return z
 		}
@@ -199,39 +225,39 @@ func registerBig(vm *VM) {
 			vmErr("big.Int.Exp on symbolic operands")
 		}
 		if y.K.Sign() <= 0 {
-			vm.store(z, BigVal{smt.Int64(1)})
+			vm.store(z, BigVal{T: smt.Int64(1)})
 			return z
 		}
 		if y.K.BitLen() > 16 {
 			vmErr("big.Int.Exp exponent too large")
 		}
-		vm.store(z, BigVal{smt.Int(new(big.Int).Exp(x.K, y.K, nil))})
+		vm.store(z, BigVal{T: smt.Int(new(big.Int).Exp(x.K, y.K, nil))})
 		return z
 	}
 	I["(*math/big.Int).Neg"] = func(vm *VM, _ *frame, a []Value) Value {
 		z := vm.bigPtr(a[0], "Neg")
-		vm.store(z, BigVal{smt.Neg(vm.bigGet(a[1], "Neg"))})
+		vm.store(z, BigVal{T: smt.Neg(vm.bigGet(a[1], "Neg"))})
 		return z
 	}
 	I["(*math/big.Int).Abs"] = func(vm *VM, _ *frame, a []Value) Value {
 		z := vm.bigPtr(a[0], "Abs")
 		x := vm.bigGet(a[1], "Abs")
-		vm.store(z, BigVal{smt.Ite(smt.Lt(x, smt.Int64(0)), smt.Neg(x), x)})
+		vm.store(z, BigVal{T: smt.Ite(smt.Lt(x, smt.Int64(0)), smt.Neg(x), x)})
 		return z
 	}
 	I["(*math/big.Int).Set"] = func(vm *VM, _ *frame, a []Value) Value {
 		z := vm.bigPtr(a[0], "Set")
-		vm.store(z, BigVal{vm.bigGet(a[1], "Set")})
+		vm.store(z, BigVal{T: vm.bigGet(a[1], "Set")})
 		return z
 	}
 	I["(*math/big.Int).SetInt64"] = func(vm *VM, _ *frame, a []Value) Value {
 		z := vm.bigPtr(a[0], "SetInt64")
-		vm.store(z, BigVal{intToTerm(a[1], 64, true)})
+		vm.store(z, BigVal{T: intToTerm(a[1], 64, true)})
 		return z
 	}
 	I["(*math/big.Int).SetUint64"] = func(vm *VM, _ *frame, a []Value) Value {
 		z := vm.bigPtr(a[0], "SetUint64")
-		vm.store(z, BigVal{intToTerm(a[1], 64, false)})
+		vm.store(z, BigVal{T: intToTerm(a[1], 64, false)})
 		return z
 	}
 	I["(*math/big.Int).Cmp"] = func(vm *VM, _ *frame, a []Value) Value {
@@ -279,21 +305,21 @@ func registerBig(vm *VM) {
 	I["(*math/big.Int).Quo"] = func(vm *VM, _ *frame, a []Value) Value {
 		z := vm.bigPtr(a[0], "Quo")
 		q, _ := truncDiv(vm, vm.bigGet(a[1], "Quo"), vm.bigGet(a[2], "Quo"))
-		vm.store(z, BigVal{q})
+		vm.store(z, BigVal{T: q})
 		return z
 	}
 	I["(*math/big.Int).Rem"] = func(vm *VM, _ *frame, a []Value) Value {
 		z := vm.bigPtr(a[0], "Rem")
 		_, r := truncDiv(vm, vm.bigGet(a[1], "Rem"), vm.bigGet(a[2], "Rem"))
-		vm.store(z, BigVal{r})
+		vm.store(z, BigVal{T: r})
 		return z
 	}
 	I["(*math/big.Int).QuoRem"] = func(vm *VM, _ *frame, a []Value) Value {
 		z := vm.bigPtr(a[0], "QuoRem")
 		rp := vm.bigPtr(a[3], "QuoRem")
 		q, r := truncDiv(vm, vm.bigGet(a[1], "QuoRem"), vm.bigGet(a[2], "QuoRem"))
-		vm.store(z, BigVal{q})
-		vm.store(rp, BigVal{r})
+		vm.store(z, BigVal{T: q})
+		vm.store(rp, BigVal{T: r})
 		return Tuple{z, rp}
 	}
 	I["(*math/big.Int).DivMod"] = func(vm *VM, _ *frame, a []Value) Value {
@@ -303,20 +329,20 @@ func registerBig(vm *VM) {
 		if vm.Truth(fromBoolTerm(smt.Eq(y, smt.Int64(0)))) {
 			vm.goPanic("division by zero")
 		}
-		vm.store(z, BigVal{smt.Div(x, y)})
-		vm.store(mp, BigVal{smt.Mod(x, y)})
+		vm.store(z, BigVal{T: smt.Div(x, y)})
+		vm.store(mp, BigVal{T: smt.Mod(x, y)})
 		return Tuple{z, mp}
 	}
 	I["(*math/big.Int).Lsh"] = func(vm *VM, _ *frame, a []Value) Value {
 		z := vm.bigPtr(a[0], "Lsh")
 		n := vm.concInt(a[2], "Lsh count")
-		vm.store(z, BigVal{smt.Mul(vm.bigGet(a[1], "Lsh"), smt.Int(pow2(n)))})
+		vm.store(z, BigVal{T: smt.Mul(vm.bigGet(a[1], "Lsh"), smt.Int(pow2(n)))})
 		return z
 	}
 	I["(*math/big.Int).Rsh"] = func(vm *VM, _ *frame, a []Value) Value {
 		z := vm.bigPtr(a[0], "Rsh")
 		n := vm.concInt(a[2], "Rsh count")
-		vm.store(z, BigVal{smt.Div(vm.bigGet(a[1], "Rsh"), smt.Int(pow2(n)))})
+		vm.store(z, BigVal{T: smt.Div(vm.bigGet(a[1], "Rsh"), smt.Int(pow2(n)))})
 		return z
 	}
 	I["(*math/big.Int).Text"] = func(vm *VM, _ *frame, a []Value) Value {
@@ -409,7 +435,7 @@ func registerBig(vm *VM) {
 		if !ok {
 			return Tuple{(*Value)(nil), false}
 		}
-		vm.store(z, BigVal{t})
+		vm.store(z, BigVal{T: t})
 		return Tuple{z, true}
 	}
 
@@ -527,13 +553,19 @@ func registerBig(vm *VM) {
 	}
 	I["(*math/big.Rat).Num"] = func(vm *VM, _ *frame, a []Value) Value {
 		x := vm.ratGet(a[0], "Num")
-		n, _ := vm.ratNormalize(x)
-		return vm.newBig(n)
+		if x.N.Op == smt.OpIntConst && x.D.Op == smt.OpIntConst {
+			n, _ := vm.ratNormalize(x)
+			return vm.newBig(n)
+		}
+		return vm.newCell(BigVal{Lazy: &normPart{N: x.N, D: x.D, Num: true}})
 	}
 	I["(*math/big.Rat).Denom"] = func(vm *VM, _ *frame, a []Value) Value {
 		x := vm.ratGet(a[0], "Denom")
-		_, d := vm.ratNormalize(x)
-		return vm.newBig(d)
+		if x.N.Op == smt.OpIntConst && x.D.Op == smt.OpIntConst {
+			_, d := vm.ratNormalize(x)
+			return vm.newBig(d)
+		}
+		return vm.newCell(BigVal{Lazy: &normPart{N: x.N, D: x.D, Num: false}})
 	}
 	I["(*math/big.Rat).IsInt"] = func(vm *VM, _ *frame, a []Value) Value {
 		x := vm.ratGet(a[0], "IsInt")
